@@ -121,7 +121,9 @@ def sampler_case(skind, name, mk, info, n, k, filt):
         elif skind == "gauss":
             dim = sum(d for _, d in sh.space_vars)
             mean = env.tensor("gm", (dim,))
-            s = S.GaussianSampler(sh.dom, n_points=n, mean=mean, std=env.tensor("gs", ()))
+            std = env.tensor("gs", ())
+            env.assume(L.gt(SH.elems(env, std)[0], 0))
+            s = S.GaussianSampler(sh.dom, n_points=n, mean=mean, std=std)
         elif skind == "lhs":
             s = S.LHSSampler(sh.dom, n_points=n)
         elif skind == "adaptive_threshold":
